@@ -310,7 +310,7 @@ class DeribitWorld:
     """Hourly MultiIndex books (time, instrument_name).  Sorted best-first, bids <= mark <= asks."""
 
     def __init__(self, rng, hours=6, start=T0, n_instr=4, token="ETH", under0=None, missing_hours=(),
-                 size_kind="mixed", expiries=None, closed_prob=0.1, level_max=8, strikes=None, vol=0.01):
+                 size_kind="mixed", expiries=None, closed_prob=0.1, level_max=8, strikes=None, vol=0.01, dyadic=False):
         self.token = token
         self.hours = [start + timedelta(hours=h) for h in range(hours)]
         under = under0 if under0 is not None else (rng.uniform(1500, 4000) if token == "ETH" else rng.uniform(20000, 70000))
@@ -362,6 +362,15 @@ class DeribitWorld:
                     if p <= 0:
                         break
                     bids.append([p, self._size(rng, size_kind)])
+                if dyadic:
+                    # prices on a 1/1024 grid (exact as floats and as Decimals), levels at simple multiples of the mark
+                    # (x1.25, x1.5, x2, x3 / the inverse): a price cap "multiple x mark" can fall exactly on a level
+                    k = rng.choice([12, 16, 24, 48, 48, 96])
+                    mark = k / 1024
+                    ups = sorted(set(rng.sample([k, k + k // 4, k + k // 2, 2 * k, 3 * k, k + 1, k + 5, 2 * k + 3, 4 * k], min(n_a, 9))))
+                    downs = sorted(set(rng.sample([k, k - k // 4, 2 * k // 3, k // 2, k // 3, k - 1, k - 5, k // 4], min(n_b, 8))), reverse=True)
+                    asks = [[u / 1024, self._size(rng, size_kind)] for u in ups]
+                    bids = [[d_ / 1024, self._size(rng, size_kind)] for d_ in downs if d_ > 0]
                 state = "open" if rng.random() > closed_prob else "closed"
                 rows.append({
                     "time": pd.Timestamp(h), "instrument_name": ins["name"], "state": state, "type": ins["kind"],
